@@ -19,9 +19,11 @@ LEVEL_TEXT = ("APE.process_data is verified for all pose sequences of any length
 LEVEL_NOTE = ("floats as reals; trusted: scipy rotation angle, numpy norm/dot; matrix relations proved for matrix-built "
               "trajectories; ape()/run() wiring: bounded (in-process runs compared with the documented pipeline order)")
 SIDECARS = ["contracts.lie_algebra", "contracts.lemmas_lie", "contracts.geometry", "contracts.filters", "contracts.metrics",
-            "contracts.lemmas_metrics"]
+            "contracts.lemmas_metrics",
+            "contracts.overwrite", "contracts.ape_rpe_cli"]
 FUNCTIONS = ["evo.core.lie_algebra.se3_inverse", "evo.core.lie_algebra.relative_se3", "evo.core.lie_algebra.so3_log_angle",
-             "evo.core.metrics.APE.process_data"]
+             "evo.core.metrics.APE.process_data",
+             "evo.main_ape.ape"]
 LEMMAS = ["se3_inverse_is_group_inverse", "relative_se3_laws", "ape_zero_when_trajectories_coincide",
           "relative_pose_invariant_under_common_left_motion", "ape_unchanged_under_common_rigid_motion",
           "ape_unchanged_when_reference_and_estimate_are_swapped"]
